@@ -485,20 +485,26 @@ def specs_nonmarkov_sis(tier):
         for I0 in gr.subsets(range(n), 1, n if n <= 3 else 2):
             for form in ("sep", "joint"):
                 for full in (True, False):
-                    b = (4 if thorough else 3) if n <= 3 else 3
-                    if len(es) >= 3 and not thorough:
-                        b = 2
+                    # a-priori bound: each infection has 2 durations x 4 delay lists per neighbour
+                    if len(es) <= 1:
+                        b = 5 if thorough else 4
+                    elif len(es) == 2:
+                        b = 4 if thorough else 3
+                    elif n == 3:
+                        b = 3 if thorough else 2          # K3: 32 options per infection
+                    else:
+                        b = 2                              # 4-node graphs
                     out.append(dict(fn="fast_nonMarkov_SIS", n=n, edges=es, I0=list(I0), tmax=6.0, budget=b,
                                     form=form, full=full))
             # exact hit: the first recovery (duration 1+2^-11) lands exactly on tmax; shifted tmin
-            out.append(dict(fn="fast_nonMarkov_SIS", n=n, edges=es, I0=list(I0), tmin=0, tmax=jit1, budget=3,
+            out.append(dict(fn="fast_nonMarkov_SIS", n=n, edges=es, I0=list(I0), tmin=0, tmax=jit1, budget=3 if len(es) <= 2 else 2,
                             durations=[1.0, 2.5], form="sep", full=True))
-            out.append(dict(fn="fast_nonMarkov_SIS", n=n, edges=es, I0=list(I0), tmin=1.5, tmax=4.0, budget=3,
+            out.append(dict(fn="fast_nonMarkov_SIS", n=n, edges=es, I0=list(I0), tmin=1.5, tmax=4.0, budget=3 if len(es) <= 2 else 2,
                             form="sep", full=False))
             # negative start times (defaults such as "-1" must not leak into the dynamics)
-            out.append(dict(fn="fast_nonMarkov_SIS", n=n, edges=es, I0=list(I0), tmin=-3, tmax=1.0, budget=3,
+            out.append(dict(fn="fast_nonMarkov_SIS", n=n, edges=es, I0=list(I0), tmin=-3, tmax=1.0, budget=3 if len(es) <= 2 else 2,
                             form="sep", full=True))
-            out.append(dict(fn="fast_nonMarkov_SIS", n=n, edges=es, I0=list(I0), tmin=-7.5, tmax=-2.0, budget=3,
+            out.append(dict(fn="fast_nonMarkov_SIS", n=n, edges=es, I0=list(I0), tmin=-7.5, tmax=-2.0, budget=3 if len(es) <= 2 else 2,
                             form="joint", full=False))
     return out
 
